@@ -13,6 +13,37 @@ import (
 	"verif/ref"
 )
 
+
+// bufferVariant: the MarshalJSONBuffer form appends to the caller's buffer. It is called with a
+// non-empty destination whose spare capacity is dirty (alternating between "a few bytes spare", so
+// that the output has to outgrow it, and "plenty"), and has to return prefix + the bytes MarshalJSON
+// gave, leaving the prefix as it was.
+var bufferVariantFlip int
+
+func bufferVariant(api string, plain []byte, f func(dst []byte) ([]byte, error)) string {
+	// prefixes end in bytes a number or string writer might mistake for its own output
+	prefixes := [...]string{"\"P{[\\,:\x00", "1.0", "2e-0", "-0.", "99", "0.000000", "\\"}
+	bufferVariantFlip++
+	prefix := prefixes[(bufferVariantFlip/2)%len(prefixes)]
+	spare := 3
+	if bufferVariantFlip&1 == 0 {
+		spare = len(plain) + 64
+	}
+	buf := make([]byte, len(prefix)+spare)
+	for i := range buf {
+		buf[i] = '}'
+	}
+	copy(buf, prefix)
+	got, err := f(buf[:len(prefix)])
+	if err != nil {
+		return fmt.Sprintf("%sBuffer(dst) fails where %s succeeds: %v", api, api, err)
+	}
+	if len(got) < len(prefix) || string(got[:len(prefix)]) != prefix || !bytes.Equal(got[len(prefix):], plain) {
+		return fmt.Sprintf("%sBuffer(dst) with a non-empty dst (%d spare bytes) returned %s, want the %d prefix bytes followed by %s", api, spare, clip(string(got)), len(prefix), clip(string(plain)))
+	}
+	return ""
+}
+
 // marshalRootFull: valid JSON, same document, fixed point.
 func marshalRootFull(pj *simdjson.ParsedJson, docs []*ref.Node, c Cfg) (what, fp string) {
 	defer func() {
@@ -24,6 +55,10 @@ func marshalRootFull(pj *simdjson.ParsedJson, docs []*ref.Node, c Cfg) (what, fp
 	out, err := it.MarshalJSON()
 	if err != nil {
 		return "MarshalJSON: " + err.Error(), "error"
+	}
+	itb := pj.Iter()
+	if s := bufferVariant("Iter.MarshalJSON", out, itb.MarshalJSONBuffer); s != "" {
+		return s, "buffer-append"
 	}
 	var back []*ref.Node
 	var v ref.Verdict
@@ -66,10 +101,15 @@ func marshalForEach(pj *simdjson.ParsedJson, docs []*ref.Node) (what, fp string)
 	}()
 	n := 0
 	err := pj.ForEach(func(i simdjson.Iter) error {
+		ib := i
 		out, err := i.MarshalJSON()
 		if err != nil {
 			what, fp = fmt.Sprintf("MarshalJSON on the iterator ParsedJson.ForEach provides for root %d: %v", n, err), "foreach-iter-error"
 			return err
+		}
+		if s := bufferVariant("ForEach iterator: Iter.MarshalJSON", out, ib.MarshalJSONBuffer); s != "" {
+			what, fp = s, "foreach-buffer-append"
+			return fmt.Errorf("stop")
 		}
 		got, ok := parseAnyValue(out)
 		if !ok || n >= len(docs) || !ref.NumericEqual(docs[n], got) {
